@@ -418,6 +418,11 @@ impl<K: KeyT> SetRunner<K> {
                 }
                 fmt_es(out.get())
             }
+            ("iter", 3) => {
+                let ka = set_addr_index(m);
+                let bad = usize::MAX;
+                crate::exec::observe_iter_nth(m.iter(), n(0) as usize, |k| *ka.get(&(*k as *const K as usize)).unwrap_or(&bad))
+            }
             ("iter", 1) | ("iter", 2) => {
                 let ka = set_addr_index(m);
                 let bad = usize::MAX;
@@ -588,6 +593,8 @@ impl<K: KeyT> SetRunner<K> {
                 }
                 r.clear();
             }
+            // `nth` variant: the prefix only (exhaustion is judged by ORACLE-ITER in the observation itself)
+            ("iter", 3) => {}
             ("iter", _) => {
                 // every bucket index once, prefix ++ fold = prefix ++ rest = all full buckets ascending
                 let list = |key: &str| -> Vec<usize> {
